@@ -265,6 +265,15 @@ class C13(Prop):
             yield {"op": "int", "args": {"s": "".join(chr(rng.choice([0x30, 0x660, 0x6F0, 0x966, 0xFF10, 0x1D7CE, 0x1D7D8, 0x1D7F6]) + rng.randrange(10)) for _ in range(n))}}
         for fn in ("parse_nvra", "Rpms._check_nevra"):
             yield {"op": "purity", "args": {"fn": fn, "s": "glibc-common-0:2.17-78.el7.x86_64.rpm", "sequence": PURITY_SEQUENCE}}
+        # the third regex-driven parser that hands out match.groupdict(): Modules.parse_uid (staticmethod, driven directly;
+        # it has no model op here, so only the probe's own oracle applies)
+        for uid in ("mod:stream", "mod:stream:20180101", "mod:stream:20180101:deadbeef", "dir/sub/mod:s:1:c", "no-colon", "a:b:c:d:e",
+                    "perl-App:1.0:8010020190322:6b9b1e2d", ":x", "m:\u0661"):
+            yield {"op": "purity", "args": {"fn": "Modules.parse_uid", "s": uid, "sequence": PURITY_SEQUENCE}}
+        for j in range(40 if tier == "quick" else 400):
+            parts = ["".join(rng.choice("abcXYZ019._-+") for _ in range(rng.randint(1, 8))) for _ in range(rng.randint(1, 5))]
+            yield {"op": "purity", "args": {"fn": "Modules.parse_uid", "s": rng.choice(["", "", "d/", "a:b/"]) + ":".join(parts),
+                                              "sequence": PURITY_SEQUENCE}}
         for s in ("", "-", "--.", "a-1-1", "a-1-1.rpm", "foo:bar", "a-1:-.", "a-:1-1.x", "a--1:1-1.x", "a-1-1.x\n", "a-1-1.x.rpm\n",
                   "a/-1-1.x", "/", "a-1-1.rpm.rpm", ".rpm", "a-1-1.x\n.rpm"):
             yield {"op": "parse_raw", "args": {"s": s}}
@@ -301,7 +310,13 @@ class C13(Prop):
         if case["op"] == "int":
             return guarded(int, a["s"])
         if case["op"] == "purity":
-            f = productmd.common.parse_nvra if a["fn"] == "parse_nvra" else (lambda x: list(productmd.rpms.Rpms()._check_nevra(x)))
+            if a["fn"] == "Modules.parse_uid":
+                import productmd.modules
+                f = productmd.modules.Modules.parse_uid
+            elif a["fn"] == "parse_nvra":
+                f = productmd.common.parse_nvra
+            else:
+                f = lambda x: list(productmd.rpms.Rpms()._check_nevra(x))   # noqa
             return purity_probe(f, a["s"])
         s = fmt(a) if case["op"] == "parse" else a["s"]
         out = {"parse": guarded(productmd.common.parse_nvra, s), "canon": None, "reparse": None,
@@ -328,6 +343,8 @@ class C13(Prop):
             return [{"op": "parse_nvra_enum", "args": a}]
         if case["op"] == "int":
             return [{"op": "py_int_digits", "args": a}]
+        if case["op"] == "purity" and a["fn"] == "Modules.parse_uid":
+            return []
         if case["op"] == "purity":      # the model is a pure function: its single answer must be the FIRST real answer
             return [{"op": "parse_nvra" if a["fn"] == "parse_nvra" else "check_nevra", "args": {"s": a["s"]}}]
         s = fmt(a) if case["op"] == "parse" else a["s"]
